@@ -1091,20 +1091,19 @@ LOOP:
 				}
 				comment := l.src[:p]
 				l.src = l.src[p+2:]
-				if nl >= 0 {
-					if endLineAsSemicolon {
-						l.emit(tokenSemicolon, 0)
-						endLineAsSemicolon = false
-					}
-					l.newline()
-				} else {
-					l.column += 4
-					for _, c := range comment {
-						if isStartChar(c) {
-							l.column++
-						}
+				if nl >= 0 && endLineAsSemicolon {
+					l.emit(tokenSemicolon, 0)
+					endLineAsSemicolon = false
+				}
+				l.column += 2
+				for _, c := range comment {
+					if c == '\n' {
+						l.newline()
+					} else if isStartChar(c) {
+						l.column++
 					}
 				}
+				l.column += 2
 				continue LOOP
 			}
 			if len(l.src) > 1 && l.src[1] == '=' {
